@@ -325,13 +325,14 @@ class GenState(object):
                 return ["setitem", t, i, ["lit", _val(rng)]]
             return ["setitem", t, i, ["node", rng.choice(sc)]]
         if k == "add_dep":
-            fs = self.ids(lambda n: n.kind in ("F", "A"))
+            # (in Nexus mode a plain Parameter may carry dependency-only edges as well: Nexus.add_dependency accepts any registered node)
+            fs = self.ids(lambda n: n.kind in (("F", "A", "P") if self.knobs["mode"] == "nexus" else ("F", "A")))
             cand = self.ids()
             if not fs or not cand:
                 return None
             return ["add_dep", rng.choice(fs), rng.choice(cand)]
         if k == "cycle":
-            fs = self.ids(lambda n: n.kind in ("F", "A"))
+            fs = self.ids(lambda n: n.kind in (("F", "A", "P") if self.knobs["mode"] == "nexus" else ("F", "A")))
             rng.shuffle(fs)
             for a in fs:
                 # choose b that (transitively) depends on a, so a->b closes a cycle
@@ -536,7 +537,9 @@ class GenState(object):
                     return False
         if k == "add_dep":
             a, b = op[1], op[2]
-            if not (g.has(a) and g.has(b)) or g.nodes[a].kind not in ("F", "A"):
+            if not (g.has(a) and g.has(b)) or g.nodes[a].kind not in (("F", "A", "P") if self.knobs["mode"] == "nexus" else ("F", "A")):
+                return False
+            if g.nodes[a].kind == "P" and (a < 0 or self.registered.get(self.name_of(a)) != a or self.registered.get(self.name_of(b)) != b):
                 return False
             if g.reaches(b, a):  # would close a cycle -> that is op 'cycle'
                 return False
@@ -544,7 +547,7 @@ class GenState(object):
             return True
         if k == "cycle":
             a, b = op[1], op[2]
-            if not (g.has(a) and g.has(b)) or g.nodes[a].kind not in ("F", "A"):
+            if not (g.has(a) and g.has(b)) or g.nodes[a].kind not in (("F", "A", "P") if self.knobs["mode"] == "nexus" else ("F", "A")):
                 return False
             if not g.reaches(b, a):
                 return False
